@@ -95,6 +95,16 @@ func init() {
 		delete(setSelf.items, item)
 		return NoneType{}, nil
 	}, 0, "remove(value) -- remove an element from a set; it must be a member")
+
+	SetType.Dict["clear"] = MustNewMethod("clear", func(self Object, args Tuple) (Object, error) {
+		setSelf := self.(*Set)
+		err := UnpackTuple(args, nil, "clear", 0, 0)
+		if err != nil {
+			return nil, err
+		}
+		setSelf.items = make(map[Object]SetValue)
+		return NoneType{}, nil
+	}, 0, "clear() -- remove all elements from this set")
 }
 
 // Add an item to the set
